@@ -9,6 +9,9 @@ import (
 	"encoding/json"
 	"flag"
 	"fmt"
+	"io"
+	"log"
+	"log/slog"
 	"math/rand"
 	"os"
 	"path/filepath"
@@ -86,6 +89,9 @@ func Register(name string, mk func() Property) { registry[strings.ToLower(name)]
 var Extra = map[string]any{}
 
 func Main() {
+	// Helm logs through slog and log; keep the harness output to our own messages
+	slog.SetDefault(slog.New(slog.NewTextHandler(io.Discard, nil)))
+	log.SetOutput(io.Discard)
 	if len(os.Args) < 2 {
 		names := []string{}
 		for k := range registry {
